@@ -170,6 +170,11 @@ fn format_full_scale(
 
     if this.scale <= 0 {
         exp = (this.scale as i128).neg();
+        if this.is_zero() {
+            // zero needs no integer padding: print "0", not "000" (which is not
+            // a valid number in formats that forbid leading zeros, such as JSON)
+            exp = 0;
+        }
         // format an integer value by adding trailing zeros to the right
         zero_right_pad_integer_ascii_digits(&mut digits, &mut exp, f.precision());
     } else {
